@@ -110,7 +110,14 @@ class SphinxInventory:
             self.error(
                 'sphinx',
                 'Failed to decode inventory from %s' % (base_url,))
-            return ''
+            # Drop only the lines that cannot be decoded.
+            lines = []
+            for raw in decompressed.split(b'\n'):
+                try:
+                    lines.append(raw.decode('utf-8'))
+                except UnicodeError:
+                    pass
+            return '\n'.join(lines)
 
     def _parseInventory(
             self,
